@@ -97,6 +97,10 @@ VARIANTS = [
          expect=("C13-IDENTITY", "strip_exponent")),
     dict(name="twin: keyed option tested with bool()", kind="twin", file="cotengra/contract.py",
          old="        exponent = 0.0 if strip_exponent else None\n", new="        exponent = 0.0 if bool(strip_exponent) else None\n"),
+    dict(name="round4: reusable optimizer hands back a kept tree on a hit", kind="break", file="cotengra/reusable.py",
+         old="        # else need to *reconstruct* the tree from the more compact path\n        return self._reconstruct_tree(inputs, output, size_dict, con)",
+         new="        try:\n            return con[\"tree\"]\n        except KeyError:\n            tree = con[\"tree\"] = self._reconstruct_tree(inputs, output, size_dict, con)\n            return tree",
+         expect=("C13-REUSABLE", "search")),
 ]
 for v in VARIANTS:
     if v.get("edits"):
